@@ -227,5 +227,5 @@ def run(tier, seed):
     V.write_evidence('C11', tier, seed, cov, time.time() - t0, len(ver.violations),
                      assumptions=['marginals Beta(alpha_i, alpha_0 - alpha_i) and pair ratios Beta(alpha_i, alpha_j) from the reference beta law', 'ratio computed in the sampler\'s own float type'])
     if reprs != {'FromBeta', 'FromGamma'} or samples_n == 0:
-        return 2
+        return 1 if rc == 1 else 2  # a violation outranks a missed coverage floor
     return rc
